@@ -7,7 +7,7 @@ From Verif Require Import Fmt.TextModel Fmt.TextProofs Fmt.X86FmtModel Fmt.X86Fm
 Local Open Scope Z_scope.
 
 (* punctuation tokens used by the x86 formatter *)
-Definition allowed_chars : text := s " []+-*:,{}<>".
+Definition allowed_chars : text := s " []+-*:,{}<>!".
 Definition allowed (t : tok) : bool :=
   match t with TId _ => true | TP c => existsb (Ascii.eqb c) allowed_chars end.
 
